@@ -142,6 +142,9 @@ pub struct Player {
     pub lines: Rc<RefCell<u64>>,
     pub globals: Vec<String>,
     pub counted: Vec<String>,
+    /// names that have (had) an observer: their values are polled around
+    /// story-running calls so that notifications for unchanged values can be dropped
+    pub observed_vars: Vec<String>,
 }
 
 fn res_ok(v: J) -> J {
@@ -180,6 +183,7 @@ impl Player {
             lines: Rc::new(RefCell::new(0)),
             globals: Vec::new(),
             counted: Vec::new(),
+            observed_vars: Vec::new(),
         }
     }
 
@@ -396,7 +400,12 @@ impl Player {
                     .or_insert_with(|| Rc::new(RefCell::new(Obs { id, ev })))
                     .clone();
                 match story.observe_variable(&s(1), o) {
-                    Ok(()) => res_ok(J::Null),
+                    Ok(()) => {
+                        if !self.observed_vars.contains(&s(1)) {
+                            self.observed_vars.push(s(1));
+                        }
+                        res_ok(J::Null)
+                    }
                     Err(e) => res_err(&e),
                 }
             }
@@ -472,7 +481,34 @@ impl Player {
     /// Execute one op under `catch_unwind`; attaches the callback events.
     pub fn exec_caught(&mut self, op: &J) -> J {
         self.ev.borrow_mut().clear();
+        // Poll observed variables before calls that run story code: a
+        // notification whose value equals the value before the call says
+        // nothing (the engine records "changed" by Rc identity, not by value).
+        let name = op.get(0).and_then(|x| x.as_str()).unwrap_or("");
+        let runs_story = matches!(
+            name,
+            "cont" | "contasync" | "maximally" | "eval" | "reset" | "path" | "choose"
+        );
+        let mut before: HashMap<String, J> = HashMap::new();
+        if runs_story && let Some(story) = self.story.as_ref() {
+            for v in &self.observed_vars {
+                before.insert(
+                    v.clone(),
+                    story.get_variable(v).map(|x| enc_value(&x)).unwrap_or(J::Null),
+                );
+            }
+        }
         let r = std::panic::catch_unwind(AssertUnwindSafe(|| self.exec(op)));
+        if runs_story {
+            self.ev.borrow_mut().retain(|e| {
+                !(e.get(0).and_then(|x| x.as_str()) == Some("obs")
+                    && e.get(2)
+                        .and_then(|n| n.as_str())
+                        .and_then(|n| before.get(n))
+                        .map(|b| Some(b) == e.get(3))
+                        .unwrap_or(false))
+            });
+        }
         let mut out = match r {
             Ok(j) => j,
             Err(p) => {
